@@ -38,8 +38,45 @@ def plan(tier, seed):
     n, steps, k = 15, 40, 3      # 15 histories + the witness shard = 16 shards
   else:
     n, steps, k = 96, 50, 6
+  # Scripted scenario shards (the random stream never gives a trigger-formula column an explicit value in the action
+  # that also triggers it): see scenario_script.
+  ns = 1 if tier == 'quick' else 4
   return [{'witness': 'both'}] + \
-         [{'hseed': seed * 100003 + 6000 + i, 'steps': steps, 'k': k} for i in range(n)]
+         [{'hseed': seed * 100003 + 6000 + i, 'steps': steps, 'k': k} for i in range(n)] + \
+         [{'hseed': seed * 100003 + 6900 + i, 'scenario': 'explicit_trigger_values', 'steps': 36, 'k': k} for i in range(ns)]
+
+
+def scenario_script(rnd, steps):
+  """Bundles for a table T(A, B data; D a data column with trigger formula $A * 100 on recalcDeps [A]; formula columns
+  named so that they sort before and after D and read it, directly and through each other). Most bundles write A
+  (which triggers D) and give D an explicit value in the same action: the explicit cell is exempt from recalculation
+  while it is dirty, and the formula columns reading it may be evaluated before or after it."""
+  out = [[['AddTable', 'T', [{'id': 'A', 'type': 'Int', 'isFormula': False}, {'id': 'B', 'type': 'Int', 'isFormula': False},
+                             {'id': 'C_before', 'type': 'Any', 'isFormula': True, 'formula': '$D + 1'},
+                             {'id': 'E_after', 'type': 'Any', 'isFormula': True, 'formula': '$D * 2 + $C_before'},
+                             {'id': 'AA_first', 'type': 'Any', 'isFormula': True, 'formula': '$E_after - $D'}]]],
+         [['AddColumn', 'T', 'D', {'type': 'Int', 'isFormula': False, 'formula': '$A * 100', 'recalcWhen': 0, 'recalcDeps': [2]}]],
+         [['BulkAddRecord', 'T', [None, None, None], {'A': [1, 2, 3]}]]]
+  rows = [1, 2, 3]
+  while len(out) < steps:
+    k = rnd.random()
+    r = rnd.choice(rows)
+    if k < 0.35:
+      out.append([['UpdateRecord', 'T', r, {'A': rnd.randint(0, 9), 'D': rnd.randint(10, 99)}]])
+    elif k < 0.55:
+      rs = rnd.sample(rows, min(len(rows), 2))
+      out.append([['BulkUpdateRecord', 'T', rs, {'A': [rnd.randint(0, 9) for _ in rs], 'D': [rnd.randint(10, 99) for _ in rs]}]])
+    elif k < 0.7:
+      rows.append(max(rows) + 1)
+      out.append([['AddRecord', 'T', rows[-1], {'A': rnd.randint(0, 9), 'D': rnd.randint(10, 99)}]])
+    elif k < 0.8:
+      out.append([['UpdateRecord', 'T', r, {'A': rnd.randint(0, 9)}]])
+    elif k < 0.9:
+      out.append([['UpdateRecord', 'T', r, {'D': rnd.randint(10, 99)}], ['UpdateRecord', 'T', r, {'B': rnd.randint(0, 9)}]])
+    else:
+      out.append([['UpdateRecord', 'T', r, {'A': rnd.randint(0, 9), 'D': rnd.randint(10, 99)}],
+                  ['UpdateRecord', 'T', rnd.choice(rows), {'A': rnd.randint(0, 9)}]])
+  return out
 
 
 class OrderFormulaGen(gen_formula.FormulaGen):
@@ -221,6 +258,17 @@ def run_shard(spec, acc):
     return globals()['witness_' + spec['witness']](acc)
   k = spec['k']
   seeds = [0] + [spec['hseed'] * 31 + 7 * j + 1 for j in range(1, k)]
+  if spec.get('scenario'):
+    import random as _random
+    script = scenario_script(_random.Random(spec['hseed']), spec['steps'])
+    class ScriptGen(OrderGen):
+      def bundle(self, model):
+        return script.pop(0) if script else [['Calculate']]
+    h = OrderHistory(acc, spec['hseed'], [{'timeout': TIMEOUT} for _ in range(k)], spec['steps'], weights=WEIGHTS, flags=FLAGS,
+                     order_seeds=seeds, gen_cls=ScriptGen)
+    h.run()
+    acc.count('scenario_histories')
+    return
   h = OrderHistory(acc, spec['hseed'], [{'timeout': TIMEOUT} for _ in range(k)], spec['steps'], weights=WEIGHTS, flags=FLAGS,
                    order_seeds=seeds, gen_cls=OrderGen)
   h.run()
